@@ -106,6 +106,23 @@ def replay(case):
         else:
             ev["items"] = [[cfgh.sym_tag(x) for x in w] for w in r[1]]
         evs.append(ev)
+    # the same queries on an object that was first asked about the empty word (membership works on the same tables)
+    g4, _, _ = cfgh.make(case["prods"], case["vpool"], case["tpool"], declare=case.get("declare", False), container=case.get("container"), nostart=bool(case.get("nostart")))
+    guard.call(g4.contains, [])
+    guard.call(g4.generate_epsilon)
+    for op in ("get_nullable_symbols", "get_generating_symbols"):
+        evs.append(cfgh.set_event(op, G, guard.call(getattr(g4, op)), aged="contains-epsilon-first"))
+    evs.append(cfgh.bool_event("is_empty", G, guard.call(g4.is_empty), aged="contains-epsilon-first"))
+    r = guard.take(lambda: g4.get_words(2), 600, timeout=3.0)
+    ev = {"op": "get_words", "G": G, "n": 2, "K": 30, "items": [], "status": r[0], "exhausted": False, "aged": "contains-epsilon-first"}
+    if r[0] == "ok":
+        ev["items"] = [[cfgh.sym_tag(x) for x in w] for w in r[1]]
+        ev["exhausted"] = r[2]
+    elif r[0] == "exc":
+        ev["exc"], ev["msg"] = r[1], r[2]
+    else:
+        ev["items"] = [[cfgh.sym_tag(x) for x in w] for w in r[1]]
+    evs.append(ev)
     G2 = cfgh.project(g)
     if G2 != G:
         evs.append({"op": "new", "G": G2, "start": start, "prods": tagged, "after": True})
